@@ -65,7 +65,7 @@ def gen_scripts(rng, tier):
             # everything fails from here on: exhausts the five levels
             cv = [(rng.choice(FLAGS_REC), rng.random()) for _ in range(400)]
         re = [1 if rng.random() < 0.93 else 0 for _ in range(6)]
-        scripts.append({"dt": dt, "y0": y0, "cv": cv, "reinit": re})
+        scripts.append({"dt": dt, "y0": y0, "cv": cv, "reinit": re, "reset_mx": rng.choice([-1, -1, 500, 3])})
     if tier == "thorough":
         # exhaustive: outcome of the call in Solve x first call of level 1 x first call of level 2
         opts = [0] + FLAGS_REC + [-5, -7]
@@ -78,7 +78,7 @@ def gen_scripts(rng, tier):
 def script_line(s, mx=500):
     cv = " ".join(f"{f} {fr!r}" for f, fr in s["cv"])
     re = " ".join(str(x) for x in s["reinit"])
-    return f"{s['dt']!r} {s['y0']!r} {mx} {len(s['cv'])} {cv} {len(s['reinit'])} {re}"
+    return f"{s['dt']!r} {s['y0']!r} {mx} {s.get('reset_mx', -1)} {len(s['cv'])} {cv} {len(s['reinit'])} {re}"
 
 
 def run(argv):
@@ -172,7 +172,10 @@ def run(argv):
         for mx in ([1, 5, 500] if tier == "quick" else [1, 2, 5, 50, 500, 1000]):
             for ns in sorted({1, max(1, mx - 2), max(1, mx - 1), mx, mx + 1, mx + 2, 3 * mx}):
                 cases.append((mx, ns, chk.rng.choice([1.0, 86400.0, 1e10]), chk.rng.choice([0.0, 1.0])))
-        inp = "\n".join(f"{dt!r} {y0!r} {mx} {ns}" for mx, ns, dt, y0 in cases) + "\n"
+        # the budget in force is the one of the last Init / Reset: Init with another budget, then Reset with the one under test
+        inits = [chk.rng.choice([-1, -1, 1, 7, 100000]) for _ in cases]
+        inp = "\n".join(f"{dt!r} {y0!r} {(mx if ini < 0 else ini)} {(-1 if ini < 0 else mx)} {ns}"
+                        for (mx, ns, dt, y0), ini in zip(cases, inits)) + "\n"
         exe = builds["rosenbrock4"]
         r = subprocess.run([str(exe)], input=inp, capture_output=True, text=True, cwd=exe.parent, timeout=600)
         lines = r.stdout.strip().split("\n")
